@@ -672,7 +672,9 @@ pub fn run(cfg: &Cfg) {
     for _ in 0..cfg.n(1200, 60_000) {
         let n = r.below(4) as usize;
         let ms: Vec<Bytes> = (0..n).map(|_| Bytes::from(rbytes(&mut r))).collect();
-        let mut b = encode_message_batch(ms).to_vec();
+        // (the valid encoding is written here, independently of the encoder under test)
+        let mut b = (ms.len() as u64).to_be_bytes().to_vec();
+        for m in &ms { b.extend_from_slice(&(m.len() as u64).to_be_bytes()); b.extend_from_slice(m); }
         let tag;
         match r.below(6) {
             0 => { tag = "valid"; }
